@@ -64,7 +64,7 @@ func (e *Engine) Run(fn *ssa.Function) (final *St, err error) {
 			panic(r)
 		}
 	}()
-	st := &St{pc: e.S.True, heap: &Heap{over: map[ObjID]Value{}}, env: map[ssa.Value]Value{}}
+	st := &St{pc: e.S.True, heap: newHeap(), env: map[ssa.Value]Value{}}
 	if fn.Pkg != nil {
 		e.ensureInit(fn.Pkg)
 	}
